@@ -86,6 +86,8 @@ class Vocab:
         if not concrete_only and rng.random() < search:
             return rng.choice(["*", ">", "*", "*"])
         if re_is_free(r):
+            if self.aliases and rng.random() < 0.07:      # an entity NAMED like an extension alias
+                return rng.choice(sorted(self.aliases.keys()))
             return rng.choice(FREE_POOL)
         ws = [w for w in re_words(r, rng) if w not in ("*", ">")]
         if concrete_only:
@@ -365,12 +367,12 @@ def universe(v, nleaf=None, with_junk=True):
                 k = fields[i][0]
                 r = dict(v.tdict[label])[k]
                 if re_is_free(r):
-                    fields[i] = (k, rng.choice(NAMES))
+                    fields[i] = (k, rng.choice(NAMES + sorted(v.aliases.keys())[:2]))
                 else:
                     fields[i] = (k, v.value((k, r), concrete_only=True))
         else:
             label = rng.choice(leaf_labels)
-            fields = [(k, (rng.choice(NAMES) if re_is_free(r) else v.value((k, r), concrete_only=True))) for k, r in v.tdict[label]]
+            fields = [(k, (rng.choice(NAMES + sorted(v.aliases.keys())[:2]) if re_is_free(r) else v.value((k, r), concrete_only=True))) for k, r in v.tdict[label]]
             base = (label, fields)
         leaves.append((label, fields))
     strings = []
